@@ -29,7 +29,7 @@ theorem shapes_recognised :
     Gen.api.all (fun d => d.shape != Shape.other || nonConstructs.contains d.name) = true := by decide +kernel
 
 def isStmtConstruct (d : ApiEntry) : Bool :=
-  d.recv == Recv.stmt && d.shape != Shape.other
+  d.recv == Recv.stmt && d.shape != Shape.other && d.shape != Shape.cloneWrap
 
 /-- OBLIGATION: every construct exists in all three forms: a package function that delegates to
     the Statement method on a new statement, and a Group method that builds through the function
